@@ -232,6 +232,13 @@ def from_storage(case, d):
     return np.concatenate(out) if out else np.zeros(0)
 
 
+# "parameters == retraction of the solver's answer" is compared at the accuracy C01 grants Exp: the translation block of
+# SE3/Sim3 Exp is only promised to a small multiple of sqrt(eps) (pypose evaluates (1-cos t)/t^2 in closed form down to
+# t = eps, so for t ~ 1e-8 the term phi x tau / 2 is lost: 2.3e-9 relative was observed at VERIF_SEED=6).  A wrong update
+# (other sign, missing / doubled step, wrong parameter) is off by O(|d|), eight orders above this.
+RETR_TOL = 16 * float(np.sqrt(np.finfo(np.float64).eps))
+
+
 def retract(case, base, delta_t):
     """apply a tangent step with the reference retraction -> new parameter values"""
     glt = case["ltype"]
@@ -453,7 +460,7 @@ def check_model(case, rec, tol=1e-6):
             rec.check(float(np.linalg.norm(g)) <= 1e-6 * sc2 * max(1.0, cond * 1e-6) + fd_floor, "gn_normal_eq", lambda: "GN(%s): step is not a least-squares solution: |A^T(A d - b)| = %.3g" % (case["solver"], float(np.linalg.norm(g))))
             want = retract(case, base, d)
             e = param_distance(case, want, after)
-            rec.check(e <= 1e-9 * max(1.0, float(np.abs(d).max())), "gn_retraction:%s" % glt, lambda: "GN: parameters differ from the retraction of the solver's answer by %.3g" % e)
+            rec.check(e <= RETR_TOL * max(1.0, float(np.abs(d).max())), "gn_retraction:%s" % glt, lambda: "GN: parameters differ from the retraction of the solver's answer by %.3g" % e)
     else:
         if not rec.check(1 <= len(rsol.calls) <= case["reject"] + 1, "lm_trials", "LM made %d trials with reject=%d" % (len(rsol.calls), case["reject"])):
             return
@@ -492,7 +499,7 @@ def check_model(case, rec, tol=1e-6):
         d_last = from_storage(case, rsol.calls[-1][2].reshape(-1))
         stepped = retract(case, base, d_last)
         e1, e0 = param_distance(case, stepped, after), param_distance(case, base, after)
-        t_ = 1e-9 * max(1.0, float(np.abs(d_last).max()))
+        t_ = RETR_TOL * max(1.0, float(np.abs(d_last).max()))
         rec.check(min(e0, e1) <= t_, "lm_update:%s" % glt, lambda: "LM: parameters after the step are neither the retraction of the last solve (%.3g) nor the restored ones (%.3g)" % (e1, e0))
         # the solver's answer itself must solve its system (checks the wrapper saw the real call)
         A, b, x = rsol.calls[-1]
